@@ -105,3 +105,33 @@ def fromXyz (s : SIConsts α) (E0 mc2 : α) (w : Vec7 α) : Vec7 α :=
   let p := sqrt (w.a1 * w.a1 + w.a3 * w.a3 + w.a5 * w.a5)
   let gamma := sqrt (1.0 + (p / s.mec) * (p / s.mec))
   ⟨w.a0, w.a1 / p0, w.a2, w.a3 / p0, -w.a4 / b0, (gamma - g0) / (b0 * g0), w.a6⟩
+
+/-! ## Twiss parameters (`beam.py:329-377`, `parameter_beam.py:188-288`) -/
+
+structure Twiss (α : Type) where
+  emit : α
+  beta : α
+  alpha : α
+
+/-- `torch.clamp_min(x, lo)` -/
+def clampMin (x lo : α) : α := if ltb x lo then lo else x
+
+/-- emittance / beta / alpha from the beam sizes `sigma_x`, `sigma_px` and the covariance `sigma_xpx`;
+`tiny = torch.finfo(dtype).tiny` -/
+def twissOf (sigx sigp sxp tiny : α) : Twiss α :=
+  let emit := sqrt (clampMin (sigx * sigx * (sigp * sigp) - sxp * sxp) tiny)
+  { emit := emit, beta := sigx * sigx / emit, alpha := -sxp / emit }
+
+/-- second moments `(cov[0,0], cov[0,1], cov[1,1])` that `ParameterBeam.from_twiss` produces -/
+structure Mom2 (α : Type) where
+  sxx : α
+  sxp : α
+  spp : α
+
+def fromTwiss (beta alpha emit : α) : Mom2 α :=
+  let sigx := sqrt (emit * beta)
+  let sigp := sqrt (emit * (1.0 + alpha * alpha) / beta)
+  { sxx := sigx * sigx, sxp := -emit * alpha, spp := sigp * sigp }
+
+/-- `ParameterBeam.sigma_x = sqrt(cov[0,0])` etc., then the Twiss read-out -/
+def twissOfMom (m : Mom2 α) (tiny : α) : Twiss α := twissOf (sqrt m.sxx) (sqrt m.spp) m.sxp tiny
